@@ -30,8 +30,7 @@ Proof.
   assert (oQ_eqb (or_none (e_end a)) (or_none (e_end b)) = true) as Ee.
   { destruct (e_end a) as [x|], (e_end b) as [y|]; try discriminate; [exact (or_none_eq _ _ He) | reflexivity]. }
   rewrite Ee. cbn [andb]. unfold enum_eqb, da_tag in *.
-  destruct (sget (e_styles a) p_DisplayAlign) as [[]|], (sget (e_styles b) p_DisplayAlign) as [[]|]; try discriminate; try congruence.
-  exact Hd.
+  destruct (sget (e_styles a) p_DisplayAlign) as [[]|], (sget (e_styles b) p_DisplayAlign) as [[]|]; try discriminate; try congruence; exact Hd.
 Qed.
 
 Section Loop.
